@@ -93,6 +93,41 @@ func runC12(c *Ctx) {
 			c.Count("outcome:" + strings.SplitN(out, ":", 2)[0] + ":" + op)
 		}
 	}
+	// a type specifier has one or two parts: anything longer names no type and is rejected by Compile
+	for _, src := range []string{"1 is System.Integer.value", "Patient is FHIR.Patient.name", "Patient.name[0] as FHIR.HumanName.given", "1 is a.b.c", "1.is(System.Integer.value)",
+		"1.as(System.Integer.value)", "Patient is FHIR.Patient.name.given", "1 is System.System.Integer", "Patient is FHIR.FHIR.Patient", "1 is Integer.System", "'s' as System.String.length"} {
+		_, err := fhirpath.Compile(src)
+		c.Observe("qualifier-count "+src, true)
+		c.Law(err != nil, "C12/unknown-type-accepted", "a type specifier that names no type is rejected by Compile", src, "compiled")
+	}
+	// values computed from FHIR primitives are System values: every conversion function applied to an
+	// element yields the System type, never the element itself
+	{
+		res := mustResource(`{"resourceType":"Observation","id":"o","status":"final","code":{"text":"c"},"effectiveDateTime":"2020-01-02T10:00:00Z","issued":"2020-01-02T10:00:00.000Z","valueQuantity":{"value":1.5,"unit":"mg"},
+		  "extension":[{"url":"d","valueDate":"2020-03-04"},{"url":"t","valueTime":"10:00:00"},{"url":"i","valueInteger":3},{"url":"b","valueBoolean":true},{"url":"x","valueDecimal":2.50},{"url":"s","valueString":"7"},{"url":"p","valuePositiveInt":4}]}`)
+		type conv struct{ path, fn, sys, fhirT string }
+		for _, w := range []conv{
+			{"Observation.extension.where(url='d').value", "toDate()", "Date", "date"}, {"Observation.extension.where(url='d').value", "toDateTime()", "DateTime", "dateTime"}, {"Observation.extension.where(url='d').value", "toString()", "String", "string"},
+			{"Observation.effective", "toDateTime()", "DateTime", "dateTime"}, {"Observation.effective", "toDate()", "Date", "date"}, {"Observation.effective", "toString()", "String", "string"},
+			{"Observation.issued", "toDateTime()", "DateTime", "instant"}, {"Observation.extension.where(url='t').value", "toTime()", "Time", "time"}, {"Observation.extension.where(url='t').value", "toString()", "String", "string"},
+			{"Observation.extension.where(url='i').value", "toInteger()", "Integer", "integer"}, {"Observation.extension.where(url='i').value", "toDecimal()", "Decimal", "decimal"}, {"Observation.extension.where(url='i').value", "toString()", "String", "string"},
+			{"Observation.extension.where(url='i').value", "toQuantity()", "Quantity", "Quantity"}, {"Observation.extension.where(url='p').value", "toInteger()", "Integer", "positiveInt"},
+			{"Observation.extension.where(url='b').value", "toBoolean()", "Boolean", "boolean"}, {"Observation.extension.where(url='b').value", "toString()", "String", "string"},
+			{"Observation.extension.where(url='x').value", "toDecimal()", "Decimal", "decimal"}, {"Observation.extension.where(url='x').value", "toString()", "String", "string"},
+			{"Observation.extension.where(url='s').value", "toString()", "String", "string"}, {"Observation.extension.where(url='s').value", "toInteger()", "Integer", "integer"},
+			{"Observation.value", "toQuantity()", "Quantity", "Quantity"}, {"Observation.value", "toString()", "String", "string"}, {"Observation.status", "toString()", "String", "code"}, {"Observation.id", "toString()", "String", "id"},
+		} {
+			for _, q := range []struct{ src, want string }{
+				{w.path + "." + w.fn + " is System." + w.sys, "ok:t"}, {w.path + "." + w.fn + " is FHIR." + w.fhirT, "ok:f"}, {w.path + "." + w.fn + " is Element", "ok:f"},
+				{"(" + w.path + "." + w.fn + " as System." + w.sys + ").exists()", "ok:t"},
+			} {
+				o := compileEval(q.src, []fhir.Resource{res})
+				got := boolOut(o)
+				c.Observe("converted "+q.src, true)
+				c.Law(got == q.want, "C12/converted-type", "a value computed from a FHIR primitive is a System value of the corresponding type", q.src, got)
+			}
+		}
+	}
 	// a narrative xhtml element, always (generated resources carry one only sometimes)
 	{
 		res := mustResource(`{"resourceType":"Patient","id":"x","text":{"status":"generated","div":"<div xmlns=\"http://www.w3.org/1999/xhtml\">x</div>"}}`)
